@@ -2,7 +2,8 @@
 Require Import Parser PgModel.
 Require Lex.
 Require LexQuote LexField PgQuote PgIdent.
-From Coq Require Import List String Ascii NArith.
+Require Import Render Printer QuotePipeline.
+From Coq Require Import List String Ascii NArith ZArith.
 Import ListNotations.
 
 (* the whole input  f:<dq>w<dq>  lexes to exactly [Literal f; Colon; Quoted <dq>w<dq>; EOF], for every byte string w without a double quote <dq>
@@ -25,5 +26,31 @@ Theorem C08_sql_constant_decodes_to_the_value : forall (v : bytes) (rest : list 
   next ("'"%char :: PgQuote.double v ++ "'"%char :: rest) = Some (TStr v, rest).
 Proof. exact PgQuote.sq_roundtrip. Qed.
 
+(* from the tokens to the tree: the field f (a term token whose text is the plain word fs) and the quoted text w give the tree
+   EQUALS(column fs, literal w): w is ONE string value equal to the text between the quotes, whatever it contains *)
+Theorem C08_quoted_value_tree : forall (o : oracle) (ftok : token) (fs w : string),
+  is_term_tok ftok = true -> parse_literal o ftok = lit (VStr fs) -> contains_char """"%char w = false ->
+  parse_toks o "" [ftok; colon_tok; quoted w; eof] = PTree (E (VExp (lit (VCol fs))) Equals (VExp (lit (VStr w))) one_bits 1%Z).
+Proof. exact quoted_value_tree. Qed.
+
+(* from the tree to the inline SQL text: the quoted column, " = ", and the constant ' + w with every ' doubled + ' (valid UTF-8
+   and NUL-free texts; the library refuses the others) ... *)
+Theorem C08_quoted_value_inline_sql : forall (o2 : oracle2) (fs w : string),
+  String.eqb fs "" = false -> contains_char """"%char fs = false ->
+  valid_utf8 o2 (col_text fs) = true -> contains_char (ascii_of_nat 0) (col_text fs) = false ->
+  valid_utf8 o2 (sql_text w) = true -> contains_char (ascii_of_nat 0) (sql_text w) = false ->
+  render o2 (E (VExp (lit (VCol fs))) Equals (VExp (lit (VStr w))) one_bits 1%Z) = Ret ((col_text fs ++ " = " ++ sql_text w)%string, None).
+Proof. exact quoted_value_inline. Qed.
+
+(* ... and to the parameter list: the value itself, verbatim, as the only parameter (a lone star is known finding K6) *)
+Theorem C08_quoted_value_parameter : forall (o2 : oracle2) (fs w : string),
+  String.eqb fs "" = false -> contains_char """"%char fs = false -> String.eqb w "*" = false ->
+  valid_utf8 o2 (col_text fs) = true -> contains_char (ascii_of_nat 0) (col_text fs) = false -> valid_utf8 o2 "?" = true ->
+  render_param o2 (E (VExp (lit (VCol fs))) Equals (VExp (lit (VStr w))) one_bits 1%Z) = Ret ((col_text fs ++ " = ?")%string, [VStr w], None).
+Proof. exact quoted_value_parameter. Qed.
+
 Print Assumptions C08_quoted_value_is_one_token.
+Print Assumptions C08_quoted_value_tree.
+Print Assumptions C08_quoted_value_inline_sql.
+Print Assumptions C08_quoted_value_parameter.
 Print Assumptions C08_sql_constant_decodes_to_the_value.
